@@ -32,7 +32,9 @@ EXPLANATION = (
     'label/text, and the label is bound to the region meta; two probes (label with a comma, text with "=") decide the quoting '
     'discipline; (R3 also runs with radunit=arcsec/arcmin, where sizes are labelled with the quote units); (R10) every key the '
     'reader splits into a list (taken from its source) is written by the writer in the bracket form that the metadata regex and the '
-    'split/strip chain read back as the same list. Not decided: numeric formatting per fmt, sexagesimal lexing.')
+    'split/strip chain read back as the same list; (R11) the coordinate and length lexers are partially evaluated on one probe token per branch of their '
+    'dispatch (pix, hms, rad, a:b:c hours, a.b.c.d degrees, decimal degrees, dms; ", \', deg, rad, arcmin, arcsec, pix, bare '
+    'number -> error). Not decided: numeric formatting per fmt, what astropy\'s Angle makes of the string it is handed.')
 TRUSTED = ['the reader\'s regexes, applied to the constant line template, return the bracketed pairs / trailing lengths in order '
            '(stdlib re on constants from the source)', 'Quantity.to(unit).value', 'frame_transform_graph.get_names() maps astropy '
            'frame names to themselves']
@@ -280,6 +282,13 @@ def _tok_of(t):
     return None, scale
 
 
+_CENTRE_BASE = {}
+
+
+def _find_apps_named(t, suffix):
+    return [x for x in walk_terms(t) if isinstance(x, App) and x.name.endswith(suffix)]
+
+
 SKY_SIZE_FIELDS = {'CircleSkyRegion': ['radius'], 'CircleAnnulusSkyRegion': ['inner_radius', 'outer_radius'],
                    'EllipseSkyRegion': ['width', 'height', 'angle'], 'RectangleSkyRegion': ['width', 'height', 'angle']}
 
@@ -334,6 +343,31 @@ def r3(ctx):
                                      'that unit (the number depends on the unit the value was given in)')
                     elif sp.simplify(ratio * rscale) != 1:
                         probs.append(f'{f}: written x{ratio} (slot {j}) and read x{rscale}: the round trip does not return the value')
+            # centre: slots 1, 2 are (lon, lat) / (x, y) in that order, labelled deg whatever radunit says, and the reader
+            # feeds them to the coordinate in the same order
+            if len(args) > 2 and 'center' in m.params_of(wci):
+                a1, a2 = show(args[1], 2000), show(args[2], 2000)
+                if coordsys == 'image':
+                    if not (a1 == 'region.center.x' and a2 == 'region.center.y'):
+                        probs.append(f'centre slots are written as ({a1[:60]}, {a2[:60]}), not (x, y)')
+                else:
+                    if not ('attr:lon(' in a1 and 'attr:lat(' not in a1 and 'attr:lat(' in a2 and 'attr:lon(' not in a2):
+                        probs.append(f'centre slots are written as ({a1[:80]}, {a2[:80]}), not (lon, lat)')
+                    key = (wci.name, coordsys)
+                    if radunit is None:
+                        _CENTRE_BASE[key] = (args[1], args[2])
+                    elif key in _CENTRE_BASE and not (same(args[1], _CENTRE_BASE[key][0]) and same(args[2], _CENTRE_BASE[key][1])):
+                        probs.append(f'with radunit={radunit} the centre is written as ({a1[:90]}, …) although its slots stay labelled '
+                                     '"deg": the coordinates must not depend on radunit')
+                if reg is not None:
+                    cen = reg.fields.get('center')
+                    reps = _find_apps_named(cen, 'UnitSphericalRepresentation') if cen is not None else []
+                    if reps and len(reps[0].args) >= 2:
+                        r1, r2 = show(reps[0].args[0], 300), show(reps[0].args[1], 300)
+                        if 'Unknown(' in r1 or 'Unknown(' in r2:
+                            ctx.note(f'{construct}: centre of the parsed region not resolved by the evaluator (not decided)')
+                        elif not ('T1' in r1 and 'T2' in r2 and 'T2' not in r1 and 'T1' not in r2):
+                            probs.append(f'the reader builds the centre from ({r1[:60]}, {r2[:60]}), not (first, second) bracket entry')
             if probs:
                 ctx.bad(construct, 'slots-and-units', '; '.join(probs), ser.loc(), {'template': template})
             else:
@@ -678,6 +712,56 @@ def r10(ctx):
                     'parse -> serialise -> parse is not a fixed point for this key', ser.loc())
 
 
+LEX_PROBES = {
+    'parse_coordinate': [
+        ('10pix', "astropy.units.Quantity('10', 1)", 'pixel coordinate: number before "pix", dimensionless'),
+        ('12h30m10s', "astropy.coordinates.Angle('12h30m10s')", 'hms notation carries its own units'),
+        ('1.5rad', "astropy.coordinates.Angle('1.5rad')", 'radians carry their own unit'),
+        ('18:20:30.12', "astropy.coordinates.Angle('18:20:30.12', astropy.units.hour)", 'a:b:c is hours'),
+        ('10.11.54.69', "astropy.coordinates.Angle('10:11:54.69', pi*ANG/180)", 'a.b.c.d is degrees:arcmin:arcsec'),
+        ('10.5deg', "astropy.coordinates.Angle('10.5deg', pi*ANG/180)", 'decimal degrees'),
+        ('+10d20m30s', "astropy.coordinates.Angle('+10d20m30s', pi*ANG/180)", 'dms notation is degrees'),
+    ],
+    'parse_angular_length_quantity': [
+        ('50"', "astropy.units.Quantity('50', ['unit', pi*ANG/648000])", '" is arcsec'),
+        ("50'", "astropy.units.Quantity('50', ['unit', pi*ANG/10800])", "' is arcmin"),
+        ('50deg', "astropy.units.Quantity('50', ['unit', pi*ANG/180])", 'deg'),
+        ('2.5rad', "astropy.units.Quantity('2.5', ['unit', ANG])", 'rad'),
+        ('50arcmin', "astropy.units.Quantity('50', ['unit', pi*ANG/10800])", 'arcmin'),
+        ('50arcsec', "astropy.units.Quantity('50', ['unit', pi*ANG/648000])", 'arcsec'),
+        ('50pix', "astropy.units.Quantity('50', ['unit', 1])", 'pix is dimensionless'),
+        ('50', 'raises CRTFRegionParserError', 'a length without unit is an error'),
+    ],
+}
+
+
+def r11(ctx):
+    """the two CRTF token lexers, partially evaluated on one probe token per branch of their dispatch."""
+    m = ctx.model
+    cp = m.cls('_CRTFCoordinateParser')
+    for meth, probes in LEX_PROBES.items():
+        f = method_or_fail(ctx, cp, meth)
+        bad = []
+        for tok, want, why in probes:
+            ev = Evaluator(m)
+            out = ev.run(f, [Const(tok)], {})
+            if out.raises and not out.returns:
+                got = 'raises ' + str(out.raises[0][1])
+            elif len(out.returns) == 1 and not out.raises:
+                got = show(out.returns[0][1], 200)
+            else:
+                got = f'{len(out.returns)} outcomes: ' + '; '.join(show(v, 60) for _, v in out.returns[:3])
+            if got != want:
+                bad.append((tok, got, want, why))
+        construct = f'_CRTFCoordinateParser.{meth}'
+        if bad:
+            tok, got, want, why = bad[0]
+            ctx.bad(construct, 'lexing', f'token {tok!r} is lexed as {got}; CASA convention ({why}) requires {want} '
+                    f'({len(bad)} of {len(probes)} probe tokens differ)', f.loc())
+        else:
+            ctx.ok(construct, f'{len(probes)} probe tokens, one per branch of the unit/notation dispatch')
+
+
 RULES = [
     RuleDef('R1', 'frame tables mutually inverse', r1, 8),
     RuleDef('R2', 'shape vocabulary: class -> type -> token -> class; text written', r2, 17),
@@ -688,5 +772,6 @@ RULES = [
     RuleDef('R7', 'serialisers do not mutate the regions', r7, 2),
     RuleDef('R8', 'CASA frame keywords; read-side box notations; metadata key agreement', r8, 5),
     RuleDef('R10', 'list-valued metadata keys are written in the bracket form the reader splits', r10, 3),
+    RuleDef('R11', 'coordinate and length token lexers (one probe token per dispatch branch)', r11, 2),
     RuleDef('R9', 'label and text values: written quoting is what the line/metadata regexes lex; bound to the region', r9, 4),
 ]
